@@ -164,12 +164,26 @@ def actionOf : Sexp → Option Action
     pure (.inst a b)
   | _ => none
 
+/-- the elements of an array value (`none`: not an array) -/
+def elems : Val → Option (List Val)
+  | .anil => some []
+  | .acons h t => (elems t).map (h :: ·)
+  | _ => none
+
 def valStr : Val → String
   | .int i => s!"(i {i})"
   | .str s => s!"(s {hexOfString s})"
   | .bool b => s!"(b {boolStr b})"
   | .undef => "u"
   | .hash c => c
+  | .float q => s!"(f {q})"
+  | .anil => "(a)"
+  | .acons h t => "(a " ++ valStr h ++ tailStr t
+where
+  tailStr : Val → String
+    | .anil => ")"
+    | .acons h t => " " ++ valStr h ++ tailStr t
+    | _ => " ?)"
 
 def hashStr (es : List (String × Val)) : String :=
   "(h" ++ String.join (es.map fun (k, v) => " (" ++ k ++ " " ++ valStr v ++ ")") ++ ")"
